@@ -126,7 +126,7 @@ def step_real(SimParam, M, D, dt, k, raw, oracle_bad, want_full=False, timefor=3
     return 'ok digest=%d last=%s' % (h, fmt(st, model_daytype(st[2])))
 
 
-def sim_trace(M, D, nday, dt, epw, variant, lookups_bad, dtweather=None):
+def sim_trace(M, D, nday, dt, epw, variant, lookups_bad, dtweather=None, prepare=None):
     """Driver-only run of the real simulate; returns ((protocol line, answer), steps observed) and appends
     calendar-oracle failures (clock, day type, look-up indices, month used for the ground temperature).
     dtweather: the documented parameter UWG.dtweather (weather-file time step; None = the default 3600)."""
@@ -140,9 +140,14 @@ def sim_trace(M, D, nday, dt, epw, variant, lookups_bad, dtweather=None):
                                 'observed': 'generate raised %s: %s' % (type(e).__name__, str(e)[:120]),
                                 'expected_now': 'a model', 'expected_month_before_update': None})
         return ('trace M=%d D=%d dt=%d k=%d dtype=1' % (M, D, dt, nday * 86400 // dt), classify_exc(e)), 0
-    res = simdriver.driver_only_run(model, check_forc=False)
+    undo = prepare(model) if prepare else None       # (round 4: somebody looks at the objects while the loop runs)
+    try:
+        res = simdriver.driver_only_run(model, check_forc=False)
+    finally:
+        if undo:
+            undo()
     if res.error:
-        if dtweather is not None and len(lookups_bad) < 5:
+        if (dtweather is not None or prepare is not None) and len(lookups_bad) < 5:
             lookups_bad.append({'M': M, 'D': D, 'nday': nday, 'dt': dt, 'it': len(res.steps) + 1,
                                 'epw_variant': variant, 'dtweather': dtweather,
                                 'observed': 'simulate raised %s: %s' % (res.error, res.error_msg),
@@ -171,6 +176,259 @@ def sim_trace(M, D, nday, dt, epw, variant, lookups_bad, dtweather=None):
     last = res.steps[-1]
     return ('trace M=%d D=%d dt=%d k=%d dtype=1' % (M, D, dt, len(res.steps)),
             'ok digest=%d last=%s' % (h, fmt(last[4:7] + last[2:4], last[7]))), len(res.steps)
+
+
+# ----------------------------------------------------------------------------------------------
+# round 4: circumstances that are not inputs of the clock
+
+def child_clock(simparam_cases, sim_cases):
+    """(runs in a fresh interpreter, plain or `python -O`) the stand-alone clock and driver-only runs of the real
+    simulate with the calendar oracle evaluated there; returns the answer lines and the oracle failures."""
+    from uwg.simparam import SimParam
+    bad, lines = [], []
+    for (M, D, dt, k) in simparam_cases:
+        lines.append(step_real(SimParam, M, D, dt, k, False, bad))
+    lb, slines = [], []
+    for (M, D, nday, dt) in sim_cases:
+        case, nsteps = sim_trace(M, D, nday, dt, None, None, lb)
+        slines.append([case[1], nsteps])
+    # observation only (recorded, never decided here): which start dates outside the calendar do the setters refuse?
+    from uwg import UWG
+    refusals = []
+    for name, value in (('month', 13), ('month', 0), ('day', 0), ('day', 32), ('nday', -1)):
+        m = UWG()
+        try:
+            setattr(m, name, value)
+            refusals.append([name, value, None])
+        except Exception as e:  # noqa: BLE001
+            refusals.append([name, value, type(e).__name__])
+    return {'simparam': lines, 'oracle_bad': bad[:5], 'sim': slines, 'lookups_bad': lb[:5], 'refusals': refusals}
+
+
+def observed_clock(SimParam, M, D, dt, k, oracle_bad):
+    """step_real while somebody looks: repr / str of the clock object after construction and after EVERY update"""
+    import generic as G
+    sp = SimParam(dt, 3600, M, D, 1)
+    G.poke(sp)
+    h = 0
+    t = doy0(M, D) * 86400
+    for i in range(k):
+        sp.update_date()
+        repr(sp), str(sp)
+        st = state(sp)
+        h = (h * 1000003 + pack(st, 0)) % HASH_P
+        t += dt
+        if t < YEAR and st != true_fields(t)[:5] and len(oracle_bad) < 5:
+            oracle_bad.append({'M': M, 'D': D, 'dt': dt, 'k': i + 1, 'observed': list(st),
+                               'expected': list(true_fields(t)[:5]), 'circumstance': 'repr(SimParam) after every update'})
+    st = state(sp)
+    return 'ok digest=%d last=%s' % (h, fmt(st, model_daytype(st[2])))
+
+
+def circumstances(chk, lookups_bad, oracle_bad):
+    """The clock under the circumstances of harness/generic.py. Returns the number of steps whose calendar oracle was
+    evaluated in this process."""
+    import generic as G
+    import u1_util as U1
+    import uwgutil as UU
+    from uwg.simparam import SimParam
+    rng = chk.rng
+    thorough = chk.tier == 'thorough'
+    work = os.path.join(chk.work(), 'c04x')
+    os.makedirs(work)
+
+    # ---- (x1) fresh interpreters, plain and python -O ---------------------------------------------------------
+    sp_cases = [(M, D, 3600, min(35 * 24, (365 - doy0(M, D)) * 24 - 1)) for (M, D) in dates()]
+    for dt in [d for d in DIVISORS if d >= (20 if not thorough else 1)]:
+        M = rng.randint(1, 12)
+        D = MDAYS[M - 1] - rng.randint(0, 1)
+        span = min(rng.randint(86400, 2 * 86400 + 7200), YEAR - doy0(M, D) * 86400 - dt)
+        sp_cases.append((M, D, dt, span // dt))
+    sp_cases += [(rng.randint(1, 12), rng.randint(1, 28), dt, 5) for dt in (7, 480, 96, 7200, 3601)]   # refused in both modes
+    sim_cases = [(2, 27, 3, 300), (12, 29, 3, 900), (1, 6, 3, 600),
+                 (rng.randint(1, 11), 28, 4, rng.choice([d for d in DIVISORS if d >= 100]))]
+    if thorough:
+        sim_cases += [(M, MDAYS[M - 1], 2, rng.choice([d for d in DIVISORS if d >= 30])) for M in range(1, 12)]
+    args = {'simparam_cases': [list(c) for c in sp_cases], 'sim_cases': [list(c) for c in sim_cases]}
+    plain, opt = U1.parallel([lambda: U1.call_child(work, 'props.c04:child_clock', args, optimize=False, tag='clock'),
+                              lambda: U1.call_child(work, 'props.c04:child_clock', args, optimize=True, tag='clock')])
+    n1 = b1 = 0
+    for mode, res in (('python', plain), ('python -O', opt)):
+        if 'child_error' in res:
+            b1 += 1
+            chk.violation('impl-violation', 'the clock in a fresh %s interpreter: the interpreter dies inside the package' % mode,
+                          case={'interpreter': mode}, observed=res['child_error'][-400:], expected='the calendar')
+            continue
+        n1 += len(res['simparam']) + len(res['sim'])
+        for b in res['oracle_bad'][:2]:
+            b1 += 1
+            chk.violation('impl-violation', 'SimParam clock vs true calendar (datetime 2023) in a fresh %s interpreter' % mode,
+                          case=dict({k: b[k] for k in ('M', 'D', 'dt', 'k') if k in b}, interpreter=mode),
+                          observed=b['observed'], expected=b['expected'],
+                          how='%s -c "from uwg.simparam import SimParam; sp = SimParam(dt, 3600, M, D, 1); k x sp.update_date()"; '
+                              'compare with datetime(2023,1,1) + timedelta(seconds=doy0*86400 + k*dt)' % mode)
+        for b in res['lookups_bad'][:2]:
+            b1 += 1
+            chk.violation('impl-violation', 'simulate: clock / day type / look-up indices vs true calendar in a fresh %s '
+                          'interpreter' % mode,
+                          case=dict({k: b.get(k) for k in ('M', 'D', 'nday', 'dt', 'it')}, interpreter=mode),
+                          observed=b['observed'], expected={'now': b['expected_now'],
+                                                            'month_before_update': b['expected_month_before_update']},
+                          how='driver-only run of UWG.simulate (harness/simdriver.py) inside `%s`' % mode)
+    if 'child_error' not in plain and 'child_error' not in opt:
+        lost = [[a[0], a[1], a[2]] for a, b in zip(plain.get('refusals', []), opt.get('refusals', [])) if a[2] and not b[2]]
+        chk.measurements['setter_refusals_that_vanish_under_python_-O (name, value, exception of plain python)'] = lost
+        if lost:
+            chk.notes.append('observation (unchanged tree, recorded, not a C04 verdict): the setters validate with `assert`, so '
+                             'under `python -O` start dates outside the calendar are accepted (%s); the domain of the property '
+                             '("every valid start date") is then no longer enforced by the package' % lost)
+        for kind, cases in (('simparam', sp_cases), ('sim', sim_cases)):
+            for c, a, b in zip(cases, plain[kind], opt[kind]):
+                if a != b and b1 < 6:
+                    b1 += 1
+                    chk.violation('impl-violation', 'the clock trace depends on the interpreter mode (%s)' % kind,
+                                  case={'case (M, D, dt, k) / (M, D, nday, dt)': list(c)}, observed={'python -O': b},
+                                  expected={'python': a})
+    chk.direct('clock+look-ups in fresh interpreters (python and python -O)', n1, n1,
+               'in a fresh plain and a fresh `python -O` interpreter (asserts stripped): the real SimParam from all 365 start '
+               'dates advanced hourly across the next month end, every divisor of 3600 >= 20 s (thorough: all 45) from the '
+               'last days of a random month across 1-2 midnights, time steps the constructor refuses (7, 480, 96, 7200, 3601: the '
+               'same refusal in both modes), and driver-only runs of the REAL simulate (2/27 + 3 d, '
+               '12/29 + 3 d, Friday 1/6 + 3 d, a random month end; thorough: every month end) - every state and every '
+               'look-up (day type, schedule and traffic indices, ground-temperature month) judged by datetime(2023) inside '
+               'that interpreter; the traces of both modes must be identical', mismatches=b1,
+               branches={'SimParam traces per mode': len(sp_cases), 'simulate traces per mode': len(sim_cases)})
+
+    # ---- (x2) somebody looks at the objects / DEBUG logging ----------------------------------------------------
+    n2 = b2 = 0
+    steps = 0
+    ob = []
+    for _ in range(30 if not thorough else 200):
+        M = rng.randint(1, 12)
+        D = MDAYS[M - 1] - rng.randint(0, 1)
+        dt = rng.choice([d for d in DIVISORS if d >= 60])
+        k = min(rng.randint(86400, 3 * 86400), YEAR - doy0(M, D) * 86400 - dt) // dt
+        with G.debug_logging():
+            got = observed_clock(SimParam, M, D, dt, k, ob)
+        want = step_real(SimParam, M, D, dt, k, False, ob)
+        n2 += 1
+        steps += k
+        if got != want:
+            ob.append({'M': M, 'D': D, 'dt': dt, 'k': k, 'observed': got, 'expected': want,
+                       'circumstance': 'repr(SimParam) after every update'})
+    for b in ob[:2]:
+        b2 += 1
+        chk.violation('impl-violation', 'SimParam clock while somebody looks (repr / str after every update, DEBUG logging)',
+                      case={k: b[k] for k in ('M', 'D', 'dt', 'k', 'circumstance') if k in b},
+                      observed=b['observed'], expected=b['expected'])
+
+    def looker(model):
+        G.poke(model)
+        st = model.simTime
+        orig = st.update_date
+        cnt = {'n': 0}
+
+        def wrapped(*a, **k):
+            r = orig(*a, **k)
+            cnt['n'] += 1
+            repr(st), str(st)
+            if cnt['n'] % 97 == 0:
+                G.poke(model)
+            return r
+        st.update_date = wrapped
+
+        def undo():
+            try:
+                del st.update_date
+            except AttributeError:
+                pass
+        return undo
+    lb = []
+    for (M, D, nday, dt) in [(rng.randint(1, 11), 28, 4, rng.choice([d for d in DIVISORS if d >= 100])), (12, 29, 3, 900)] + \
+            ([(M, MDAYS[M - 1], 2, 300) for M in range(1, 12)] if thorough else []):
+        with G.debug_logging():
+            seen_case, k = sim_trace(M, D, nday, dt, None, None, lb, prepare=looker)
+        plain_case, _ = sim_trace(M, D, nday, dt, None, None, lb)
+        n2 += 1
+        steps += k
+        if seen_case != plain_case and len(lb) < 5:
+            lb.append({'M': M, 'D': D, 'nday': nday, 'dt': dt, 'it': None, 'epw_variant': None, 'dtweather': None,
+                       'observed': seen_case[1], 'expected_now': plain_case[1], 'expected_month_before_update': None})
+    for b in lb[:2]:
+        b2 += 1
+        chk.violation('impl-violation', 'simulate: clock / day type / look-ups while somebody looks (every reachable object '
+                      'rendered after generate() and every 97th step, the clock after every step, DEBUG logging)',
+                      case={k: b.get(k) for k in ('M', 'D', 'nday', 'dt', 'it')},
+                      observed=b['observed'], expected={'now': b['expected_now'],
+                                                        'month_before_update': b['expected_month_before_update']})
+    chk.direct('clock+look-ups while somebody looks (repr / str / ToString, DEBUG logging)', n2, n2,
+               'stand-alone SimParam traces (month-end starts, random hour-dividing dt >= 60 s, 1-3 days) with repr / str of '
+               'the clock taken after construction and after EVERY update under DEBUG logging: the trace must equal the '
+               'unobserved one and the calendar; driver-only runs of the real simulate with every reachable uwg object '
+               'rendered after generate() and every 97th step and the clock after every step (instance-level wrapper '
+               'around update_date): same trace as unobserved, calendar oracle on every step', mismatches=b2,
+               branches={'steps': steps})
+
+    # ---- (x3) other clocks in the process ----------------------------------------------------------------------
+    n3 = b3 = 0
+    for _ in range(6 if not thorough else 40):
+        sps, ts = [], []
+        for j in range(3):
+            M, D = rng.choice(dates()[:300])
+            dt = rng.choice([d for d in DIVISORS if d >= 300])
+            sps.append((SimParam(dt, 3600, M, D, rng.choice([1, 3, 7])), M, D, dt))
+            ts.append(doy0(M, D) * 86400)
+        for i in range(400):
+            for j, (sp, M, D, dt) in enumerate(sps):
+                sp.update_date()
+                ts[j] += dt
+                n3 += 1
+                if state(sp) != true_fields(ts[j])[:5] and b3 < 2:
+                    b3 += 1
+                    chk.violation('impl-violation', 'SimParam clock vs true calendar while other clocks are advanced in the '
+                                  'same interpreter (round robin)',
+                                  case={'M': M, 'D': D, 'dt': dt, 'k': i + 1,
+                                        'other clocks (M, D, dt)': [[x[1], x[2], x[3]] for x in sps if x[0] is not sp]},
+                                  observed=list(state(sp)), expected=list(true_fields(ts[j])[:5]))
+    chk.direct('clock while other clocks live in the process (round robin)', n3, n3,
+               'three real SimParam objects with different start dates, time steps and run lengths advanced in turn, 400 '
+               'rounds: every state of every object equals datetime(2023) for ITS OWN start + k*dt', mismatches=b3)
+
+    # ---- (x4) routes: command line, python -O, on a run whose result depends on the month roll-over ---------------
+    epw = UU.rp(UU.EPW_SGP)
+    M, D = rng.choice([(3, 31), (3, 31), (10, 31)])          # the vegetation season starts / ends at midnight
+    sp = U1.spec(epw, attrs=[('month', M), ('day', D), ('nday', 2), ('dtsim', 300)], outdir=os.path.join(work, 'x4'),
+                 outname='m.epw')
+    out = U1.run_circumstances(work, sp, None, members=('python -O', 'cli model', 'cli -O model', 'cli -O param'), tag='x4')
+    plain = out[0][1]
+    n4 = b4 = 0
+    end = true_fields((doy0(M, D) + 2) * 86400)
+    for nm, r, msgs in out:
+        n4 += 1
+        msg = None
+        if r.error:
+            msg = ('the run did not complete (%s)' % r.stage, r.error, 'a written file')
+        elif r.info and r.info.get('clock'):
+            c = r.info['clock']
+            got = (c[0], int(float(c[1])), c[2], int(float(c[3])), c[4])
+            if got != end[:5]:
+                msg = ('model clock (month, day, day of year, secDay, hourDay) after the last step', list(got), list(end[:5]))
+        if not msg and nm != 'plain':
+            msg = U1.against_plain(U1.reference_for(out, nm), r)
+        if msg:
+            b4 += 1
+            chk.violation('impl-violation', 'a run across the start / end of the vegetation season gives the same result on '
+                          'every route and in every interpreter mode, and ends on the calendar instant (%s)' % nm,
+                          case={'circumstance': nm, 'route': r.route, 'month': M, 'day': D, 'nday': 2, 'dtsim': 300,
+                                'epw': 'resources/SGP_Singapore.486980_IWEC.epw'},
+                          observed={'what': msg[0], 'value': msg[1]}, expected=msg[2],
+                          how='harness/u1_util.py run_circumstances(spec)')
+    chk.direct('month roll-over on every route (library, python -O, command line)', n4, n4,
+               'an un-stubbed 2-day run from 31 March or 31 October (the vegetation season and the monthly ground temperature '
+               'change at the first midnight) through the library, a fresh `python -O` interpreter, `python -m uwg simulate '
+               'model` and `python -O -m uwg simulate model|param`: the model clock after the last step is the calendar '
+               'instant start + 2 days (library routes) and records / written bytes equal the plain library run', mismatches=b4)
+    return steps
 
 
 def run(chk):
@@ -397,6 +655,9 @@ def run(chk):
                         'is evaluated on every step',
                    classify=lambda line, impl: impl.split(' ')[0])
 
+    # ---- round 4: the clock under circumstances that are not its inputs ---------------------------
+    circumstances(chk, lookups_bad, oracle_bad)
+
     # ---- the property's own oracle on the implementation ----------------------------------------
     for b in oracle_bad[:3]:
         chk.violation('impl-violation', 'SimParam clock vs true calendar (datetime 2023)',
@@ -436,7 +697,11 @@ def replay(chk, path):
     v = json.load(open(path))
     c = v.get('case') or {}
     bad = []
-    if 'k' in c:
+    if 'interpreter' in c or 'circumstance' in c:
+        circumstances(chk, [], [])          # the circumstance families are re-explored (same seed)
+        bad = [{'tie': w['theorem_or_tie'], 'observed': w['observed'], 'expected': w['expected']}
+               for w in chk.violations[:1]]
+    elif 'k' in c:
         from uwg.simparam import SimParam
         step_real(SimParam, c['M'], c['D'], c['dt'], max(c['k'], 1), False, bad, timefor=c.get('timefor', 3600),
                   days=c.get('days', 1))
